@@ -8,7 +8,8 @@
     they have no field for are carried, by the harness, in the string fields
     the dialect does not use otherwise, separated by the byte 0x1F:
 
-      c_T      MySQL   [type identity; charset; collation; table charset; table collation]
+      c_T      MySQL   [type identity; charset; collation; table charset; table collation;
+                        float64 text of the default literal; int64 of that float (see equal_int_values)]
                PG      [type identity; has identity ("1"/""); generation; start; increment]
       i_origin MySQL   Some [index type]          PG  Some [index type; "1" iff NULLS NOT DISTINCT; INCLUDE columns joined by ","]
       p_expr   MySQL   on a column part: Some (decimal prefix length) iff the part has a SubPart
@@ -115,29 +116,43 @@ Definition canon_eqb (a b : bool * str * str) : bool :=
 
 Definition quote_space : list N := [ch_squote; ch_space].
 
-(** [equalIntValues] on the fragment: plain decimal literals (a fraction is cut off, as
-    int64(ParseFloat) does), or texts that are no numbers at all *)
-Definition int_canon (s : str) : option (bool * str) :=
-  match canon true s with
-  | Some (neg, i, _) => Some (if Nat.eqb (length i) 0 then false else neg, i)
-  | None => None
+(** [strconv.ParseInt(s, 10, 64)]: [sign] digits, within int64; the value as (negative, magnitude) *)
+Definition parse_int64 (s : str) : option (bool * N) :=
+  let '(neg, r) := split_sign s in
+  match r with
+  | [] => None
+  | _ => match digits_val 0 r with
+         | Some v => if (if neg then N.leb v 9223372036854775808 else N.leb v 9223372036854775807)
+                     then Some ((if N.eqb v 0 then false else neg), v) else None
+         | None => None
+         end
   end.
-Definition equal_int_values (x1 x2 : str) : bool :=
+
+(** [equalIntValues].  [f1 t1] / [f2 t2] are the projections of the two literals the harness supplies
+    (c_T fields 5, 6): the shortest text of strconv.ParseFloat(x, 64) ("" = error) and int64 of
+    that float in decimal, x = ToLower(Trim(literal, "' ")); strconv itself is not modelled.
+    The decision structure is the code's: ParseInt first (exact), else ParseFloat and int64(f). *)
+Definition int_of_default (a f t : str) : option (bool * N) :=
+  match parse_int64 a with
+  | Some v => Some v
+  | None => match f with [] => None | _ => parse_int64 t end
+  end.
+Definition equal_int_values (x1 x2 f1 t1 f2 t2 : str) : bool :=
   let a := to_lower (trim quote_space x1) in
   let b := to_lower (trim quote_space x2) in
   if str_eqb a b then true
-  else match int_canon a, int_canon b with
-       | Some (n1, i1), Some (n2, i2) => Bool.eqb n1 n2 && str_eqb i1 i2
+  else match int_of_default a f1 t1, int_of_default b f2 t2 with
+       | Some (n1, v1), Some (n2, v2) => Bool.eqb n1 n2 && N.eqb v1 v2
        | _, _ => false
        end.
 
-(** [equalFloatValues] on the fragment: plain decimals, or texts that are no numbers at all *)
-Definition equal_float_values (x1 x2 : str) : bool :=
+(** [equalFloatValues]: both parse as float64 and the two float64 values are equal *)
+Definition equal_float_values (x1 x2 f1 f2 : str) : bool :=
   let a := to_lower (trim quote_space x1) in
   let b := to_lower (trim quote_space x2) in
   if str_eqb a b then true
-  else match canon true a, canon true b with
-       | Some u, Some v => canon_eqb u v
+  else match f1, f2 with
+       | _ :: _, _ :: _ => str_eqb f1 f2
        | _, _ => false
        end.
 
@@ -164,8 +179,9 @@ Definition mysql_default_changed (from to : column) : bool :=
           | Some a, Some b => negb (Bool.eqb a b)
           | _, _ => true       (* fix C02-mysql-bool-default-unknown-value: a value boolValue does not know *)
           end
-        else if N.eqb k MY_INT then negb (equal_int_values d1 d2)
-        else if N.eqb k MY_FLOAT || N.eqb k MY_DECIMAL then negb (equal_float_values d1 d2)
+        else if N.eqb k MY_INT then
+          negb (equal_int_values d1 d2 (fld 5 (c_T from)) (fld 6 (c_T from)) (fld 5 (c_T to)) (fld 6 (c_T to)))
+        else if N.eqb k MY_FLOAT || N.eqb k MY_DECIMAL then negb (equal_float_values d1 d2 (fld 5 (c_T from)) (fld 5 (c_T to)))
         else if N.eqb k MY_ENUM || N.eqb k MY_SET || N.eqb k MY_STRING then negb (equals_string_values d1 d2)
         else if N.eqb k MY_TIME then
           negb (equals_string_values (to_lower (trim time_cut d1)) (to_lower (trim time_cut d2)))
